@@ -36,6 +36,7 @@ pub fn disasm(req: &J) -> J {
         Ok(stream) => {
             let len = stream.len();
             let re = stream.as_bytecode();
+            let via_into: Vec<u8> = stream.clone().into();
             let mut kinds = String::with_capacity(len);
             let mut bytes: Vec<u8> = Vec::with_capacity(len);
             let mut names: Vec<String> = Vec::new();
@@ -67,7 +68,8 @@ pub fn disasm(req: &J) -> J {
                     }
                 }
             }
-            let mut r = json!({"class": "ok", "len": len, "roundtrip": hex::encode(re), "kinds": kinds, "bytes": hex::encode(bytes)});
+            let mut r = json!({"class": "ok", "len": len, "roundtrip": hex::encode(re), "roundtrip_into": hex::encode(via_into),
+                               "kinds": kinds, "bytes": hex::encode(bytes)});
             if want_names {
                 r["names"] = json!(names);
             }
@@ -109,6 +111,11 @@ pub fn fold(req: &J) -> J {
 fn lib_kinds(code: &[u8]) -> Result<(Vec<u8>, Vec<u8>, Vec<u8>), String> {
     let stream = InstructionStream::try_from(code).map_err(|e| format!("{:?}@{}", e.payload, e.location))?;
     let re = stream.as_bytecode();
+    // the other documented way back to bytes
+    let via_into: Vec<u8> = stream.clone().into();
+    if via_into != re {
+        return Err(format!("IntoVecDiffers:{}", hex::encode(&via_into)));
+    }
     let thread = stream.new_thread(0).map_err(|e| format!("{:?}@{}", e.payload, e.location))?;
     let mut kinds = Vec::with_capacity(code.len());
     let mut bytes = Vec::with_capacity(code.len());
